@@ -83,7 +83,7 @@ func genTravGeneral(t *rapid.T, bias string) TravSc {
 	if rapid.IntRange(0, 2).Draw(t, "smallalpha") == 0 {
 		sc.Alpha = rapid.IntRange(1, 3).Draw(t, "alpha.small")
 	}
-	na := rapid.IntRange(1, 30).Draw(t, "naddrs")
+	na := rapid.IntRange(1, deep(t, 30)).Draw(t, "naddrs")
 	usedAddr := map[string]bool{}
 	for i := 0; i < na; i++ {
 		a := TAddr{Port: rapid.SampledFrom([]int{1, 2, 6881}).Draw(t, "a.port")}
@@ -223,7 +223,7 @@ func genTravTruthful(t *rapid.T) TravSc {
 	for i, m := 0, rapid.IntRange(1, 5).Draw(t, "nseeds"); i < m; i++ {
 		sc.Seeds = append(sc.Seeds, TSeed{Listing: rapid.IntRange(0, len(sc.Listings)-1).Draw(t, "seed"), WithID: rapid.Bool().Draw(t, "seed.withid")})
 	}
-	for i, m := 0, rapid.IntRange(0, 30).Draw(t, "nevents"); i < m; i++ {
+	for i, m := 0, rapid.IntRange(0, deep(t, 30)).Draw(t, "nevents"); i < m; i++ {
 		sc.Events = append(sc.Events, TEvent{Kind: "complete", Pick: rapid.IntRange(0, 15).Draw(t, "e.pick")})
 	}
 	return sc
